@@ -87,6 +87,15 @@ func checkFragment(l lm.List, f int64) (lm.List, string, string) {
 			return exp, "fragment.uncut", fmt.Sprintf("Fragment(%s) on %s: %s..%s still contains %s", lm.D(f), l, lm.D(c.S), lm.D(c.E), lm.D(k))
 		}
 	}
+	// every piece carries the whole content of its original (by value: a piece may be a copy): text of every run,
+	// voice names, inline timestamps and attributes, comments, style and region
+	for i, it := range r.Subs.Items {
+		if u := got[i].U; u >= 0 {
+			if want, ok := r.ValueByUID[u]; ok && lm.ValueSnap(it) != want {
+				return exp, "fragment.piece-content", fmt.Sprintf("Fragment(%s) on %s: the piece %s..%s of cue #%d does not carry the original's content:\n original %s\n piece    %s", lm.D(f), l, lm.D(got[i].S), lm.D(got[i].E), u, want, lm.ValueSnap(it))
+			}
+		}
+	}
 	for _, it := range r.Subs.Items {
 		if it.Style != nil && it.Style != r.Subs.Styles[it.Style.ID] || it.Region != nil && it.Region != r.Subs.Regions[it.Region.ID] {
 			return exp, "fragment.style-region", fmt.Sprintf("Fragment(%s) on %s: a piece does not carry the original's style/region object", lm.D(f), l)
